@@ -35,7 +35,7 @@ class TypeNormalizer:
 
         if t is None:
             t = type(None)
-        elif t is type:
+        elif t is type or t is typing.Type:
             t = type[object]
         elif t is typing.Any:
             t = object
@@ -95,6 +95,9 @@ def _any_as_object(t, fn=None):
     t = _plain_form(t, fn)
     if t is typing.Any:
         return object
+    if UnionType and isinstance(t, UnionType):
+        # int | str inside type[...] is typing.Union[int, str]
+        t = typing.Union[t.__args__]
     args = getattr(t, "__args__", None)
     if args and isinstance(get_origin(t), type):
         new_args = tuple(_any_as_object(arg, fn) for arg in args)
